@@ -9,6 +9,10 @@ equations, rewrites the `zmodOps` operations into field operations, and then eli
 oldest first, normalising each defining equation with `ring_nf` before it is substituted.  The effect is
 the same as `simp only [f, zmodOps_…]` followed by `ring_nf`, but every `ring_nf` call works on a small
 term (the normal forms of the operands), which matters for the ~250-squaring exponent chains.
+Intermediate values that are sums/differences are kept as atoms while the chain is normalised; with
+`alg_lets f [c₁, …]` they are identified (by `linear_combination`) with variables of the goal introduced
+by `generalize cᵢ : sᵢ = uᵢ`, so that e.g. `(Z - Y)^(p-2)` is never expanded as a polynomial.
+The proofs never mention SSA variable numbers or the shape of the generated code.
 Nothing here is trusted: the tactics only build proof terms. -/
 open Lean Elab Tactic Meta
 
